@@ -115,6 +115,17 @@ theorem C12_sinkcoloring_keeps_order (ns : Rat) (hns : 0 < ns) (g : G) (hwf : La
   obtain ⟨n, hn, rfl⟩ := List.mem_map.1 hwmem
   exact hw n hn
 
+/-- … and without the block-width contract, on every properly layered state (`C04_blockwide`) -/
+theorem C12_sinkcoloring_keeps_order_layered (ns : Rat) (hns : 0 < ns) (g : G) (hwf : LayersWF g) (hL : LayeredWF g) (g' : G) (d : Nat)
+    (h : execSinkColoring ns g = .ok (g', d)) (l : Layer) (hl : l ∈ g.layers.toList)
+    (hw : ∀ n ∈ l.nodes, 0 ≤ (g'.node n).w) :
+    StrictlyIncreasing (centres (l.nodes.map fun n => (g'.node n).x) (l.nodes.map fun n => (g'.node n).w)) := by
+  cases hb : scBlocks g with
+  | error e => unfold execSinkColoring at h; simp [hb, bind, Except.bind] at h
+  | ok r =>
+    obtain ⟨bw, roots⟩ := r
+    exact C12_sinkcoloring_keeps_order ns hns g hwf bw roots hb (scBlocks_blockWide g hL bw roots hb) g' d h l hl hw
+
 example : countCrossingsModel (ceilLog2 (min 3 3)) 3 3 [(0, 2), (1, 0), (2, 1)] = 2 := by decide +kernel
 example : crossings [(0, 2), (1, 0), (2, 1)] = 2 := by decide
 
